@@ -145,7 +145,7 @@ def iterative(rep):
     CL, MAP = rm["clusters"], rm["map"]
     conts = [n for n in ol.body if isinstance(n, ast.If) and any(isinstance(x, ast.Continue) for x in n.body)]
     vm = pmatch(f"{i} in $visited", conts[0].test) if len(conts) == 1 else None
-    allc = [n for n in walk_local(ol) if isinstance(n, (ast.Continue, ast.Break))]
+    allc = [n for n in walk_local(ol) if isinstance(n, (ast.Continue, ast.Break)) and not enclosing_loops(pm, n, ol)]  # exits of the outer loop itself
     rep.ob("O13.2", "R6b", fi, vm is not None and len(allc) == 1, [norm(c.test) for c in conts], "an item is skipped only if it already belongs to a class")
     if vm is None:
         return
@@ -165,7 +165,8 @@ def iterative(rep):
         if x != i:
             rep.ob("O13.2", "R6b", fi, len(grow) == 1, f"cluster.add({x})", "and with adding it to the class's member set", node=a)
     apps = [c for c in walk_local(ol) if isinstance(c, ast.Call) and norm(c.func) == f"{CL}.append"]
-    ok = len(apps) == 1 and not guards_of(pm, apps[0], ol) and not enclosing_loops(pm, apps[0], ol) and member_set is not None and norm(apps[0].args[0]) == member_set
+    ok = len(apps) == 1 and all(pmatch(f"{i} not in {V}", t) is not None and s_ for t, s_ in guards_of(pm, apps[0], ol)) \
+        and not enclosing_loops(pm, apps[0], ol) and member_set is not None and norm(apps[0].args[0]) == member_set
     rep.ob("O13.2", "R6b", fi, ok, apps[0] if apps else "clusters.append", "each new class is appended exactly once, after its members were collected (class index = position)")
     inner = [l for l in walk_local(ol) if isinstance(l, ast.For) and l is not ol]
     rep.need("R6b", len(inner), 1, "inner loop in iterative_cluster")
